@@ -227,12 +227,14 @@ class ClassParser(BaseParser):
         attr_alias_map = {}
         case_insensitive_names = set()
         exclude_vars = set()
+        base_parsers = []
         # option_list = []
 
         for base in reversed(self.obj.__bases__):  # according to MRO
             if not isinstance(base, type(self.obj)) or base is object:
                 continue
             parser = self.apply_for(base)  # should use cache
+            base_parsers.append(parser)
             # if not parser.options.vacuum:
             #     option_list.append(parser.options)
 
@@ -252,9 +254,21 @@ class ClassParser(BaseParser):
         self.fields = fields
         self.annotations = annotations
         self.exclude_vars = exclude_vars
+        self.base_parsers = base_parsers
         self.field_alias_map = alias_map
         self.attr_alias_map = attr_alias_map
         self.case_insensitive_names = case_insensitive_names
+
+    def resolve_forward_refs(self, local_vars=None, ignore_errors: bool = True):
+        # the fields inherited from a base class are shared with the parser of that class,
+        # their late references are pending there (a subclass may be used before its base)
+        resolved = False
+        for parser in getattr(self, "base_parsers", ()):
+            if parser.resolve_forward_refs(ignore_errors=ignore_errors):
+                resolved = True
+        if super().resolve_forward_refs(local_vars=local_vars, ignore_errors=ignore_errors):
+            resolved = True
+        return resolved
 
     def make_setter(self, field: ParserField, post_setattr=None):
         def setter(_obj_self: object, value):
